@@ -8,6 +8,7 @@ mod depipe;
 mod fix;
 mod framede;
 mod io;
+mod replay;
 #[macro_use]
 mod ser;
 mod transport;
@@ -51,6 +52,7 @@ fn main() {
         "ser" => ser::run(&args),
         "depipe" => depipe::run(&args),
         "io" => io::run(&args),
+        "replay" => replay::run(&args),
         "cobs-de" => framede::run_cobs(&args),
         "crc-de" => framede::run_crc(&args),
         "acc-edges" => acc::run_edges(&args),
